@@ -36,12 +36,14 @@ static void list_units(const std::string& tier)
     // type tags: MTi, MTr, EVp (sets and relations), EVt (relations)
     for (const char* ty : {"MTi","MTr","EVpi"}) for (const char* rr : {"F","Q"}) {
         for (const char* sh : {"S1","S2"}) printf("sr=S,ty=%s,ra=%s,shape=%s,pairs=all\n", ty, rr, sh);
-        printf("sr=S,ty=%s,ra=%s,shape=S3,pairs=%s\n", ty, rr, th?"all":"fam0");
-        printf("sr=S,ty=%s,ra=%s,shape=S4,pairs=%s\n", ty, rr, th?"fam0":"famfam0");
+        if (th) { for (int i=0;i<2;i++) printf("sr=S,ty=%s,ra=%s,shape=S3,pairs=all,part=%d/2\n", ty, rr, i);
+                  for (int i=0;i<6;i++) printf("sr=S,ty=%s,ra=%s,shape=S4,pairs=fam0,part=%d/6\n", ty, rr, i); }
+        else { printf("sr=S,ty=%s,ra=%s,shape=S3,pairs=fam0\n", ty, rr); printf("sr=S,ty=%s,ra=%s,shape=S4,pairs=famfam0\n", ty, rr); }
         if (th) { printf("sr=S,ty=%s,ra=%s,shape=S6,pairs=famfam0\n", ty, rr); }
     }
     for (const char* ty : {"MTi","MTr","EVpi","EVtr"}) for (const char* rr : {"F","Q","I"}) {
-        printf("sr=R,ty=%s,ra=%s,shape=S1,pairs=%s\n", ty, rr, th?"all":"famfam0");
+        if (th) { for (int i=0;i<3;i++) printf("sr=R,ty=%s,ra=%s,shape=S1,pairs=all,part=%d/3\n", ty, rr, i); }
+        else printf("sr=R,ty=%s,ra=%s,shape=S1,pairs=famfam0\n", ty, rr);
         if (th) printf("sr=R,ty=%s,ra=%s,shape=S2,pairs=famfam0\n", ty, rr);
     }
     // relations over two and three variables (universe not enumerable; operands built lazily from the 1-point family and from "event" functions)
@@ -74,6 +76,8 @@ static void run_binary(const std::map<std::string,std::string>& spec)
     std::string pairs = spec_get(spec,"pairs","all");
     int alt = (int)spec_int(spec,"alt",0);
     const unsigned long thin = (unsigned long)spec_int(spec,"thin",1);     // deterministic thinning of the operand pairs (1 = all)
+    unsigned long part=0, nparts=1; { std::string ps = spec_get(spec,"part","0/1"); sscanf(ps.c_str(),"%lu/%lu",&part,&nparts); }   // partition of the first operand index across units
+    auto mine = [&](unsigned long i) { return nparts<=1 || (i % nparts)==part; };
     const char* rules = rel ? "FQI" : "FQ";
     Kind ka = mk(rel,ty,ra);
     g_kind = ka.name(); g_shape = s.name;
@@ -181,12 +185,12 @@ static void run_binary(const std::map<std::string,std::string>& spec)
                     } catch (MEDDLY::error e) { violation("op-error","valid operands (in-place use %d) raised %s", al, e.getName()); }
                   }
                 };
-                if (pairs=="all") { for (unsigned long i=0;i<U && !ctx.stop;i++) { for (unsigned long j=0;j<U;j++) one(i,j); if (ctx.viol>ctx.maxviol && ctx.only<0 && ctx.upto<0) ctx.stop=true; } }
+                if (pairs=="all") { for (unsigned long i=0;i<U && !ctx.stop;i++) { if (!mine(i)) continue; for (unsigned long j=0;j<U;j++) one(i,j); if (ctx.viol>ctx.maxviol && ctx.only<0 && ctx.upto<0) ctx.stop=true; } }
                 else if (pairs=="evev") { for (unsigned long i : ev1) { if (ctx.stop) break; for (unsigned long j : ev2) { if (thin>1 && hmix(i,j)%thin) continue; one(i,j); one(j,i); } if (ctx.viol>ctx.maxviol && ctx.only<0 && ctx.upto<0) ctx.stop=true; } }
                 else if (pairs=="famfam0") { for (unsigned long i : fam) { if (ctx.stop) break; for (unsigned long j : fam) { if (thin>1 && i!=j && hmix(i,j)%thin) continue; one(i,j); } if (ctx.viol>ctx.maxviol && ctx.only<0 && ctx.upto<0) ctx.stop=true; } }
                 else {
-                    for (unsigned long i=0;i<U && !ctx.stop;i++) { for (unsigned long j : fam) one(i,j); if (ctx.viol>ctx.maxviol && ctx.only<0 && ctx.upto<0) ctx.stop=true; }
-                    for (unsigned long i : fam) { if (ctx.stop) break; for (unsigned long j=0;j<U;j++) one(i,j); if (ctx.viol>ctx.maxviol && ctx.only<0 && ctx.upto<0) ctx.stop=true; }
+                    for (unsigned long i=0;i<U && !ctx.stop;i++) { if (!mine(i)) continue; for (unsigned long j : fam) one(i,j); if (ctx.viol>ctx.maxviol && ctx.only<0 && ctx.upto<0) ctx.stop=true; }
+                    for (unsigned long i : fam) { if (ctx.stop) break; for (unsigned long j=0;j<U;j++) { if (!mine(j)) continue; one(i,j); } if (ctx.viol>ctx.maxviol && ctx.only<0 && ctx.upto<0) ctx.stop=true; }
                 }
                 r.detach();
                 // forests stay canonical after the sweep (incl. after error paths: references may leak there, never be over-released)
